@@ -729,6 +729,7 @@ func (r *Reader) MarkdownWithOptions(opts ExtractOptions) (string, error) {
 				continue
 			}
 
+			inList := false
 			for _, para := range block.Paragraphs {
 				if para.Text == "" {
 					continue
@@ -746,7 +747,14 @@ func (r *Reader) MarkdownWithOptions(opts ExtractOptions) (string, error) {
 					}
 					result.WriteString(para.Text)
 					result.WriteString("\n")
+					inList = true
 				} else {
+					// A paragraph right below a list item would continue that
+					// item (lazy continuation line): end the list first
+					if inList {
+						result.WriteString("\n")
+						inList = false
+					}
 					result.WriteString(para.Text)
 					result.WriteString("\n\n")
 				}
